@@ -14,24 +14,29 @@ from .codec import class_skeleton
 BATCH = 96
 
 
-def cpp_leaves(widths):
+def cpp_leaves(widths, beyond_i32=True):
     out = []
     for w in widths:
         out += [U(w), I(w)]
     out += [F32, F64, STR]
     out += shapes.enum_leaves(bits=(1, 2, 3, 4, 5, 6, 7, 8))
     out += [enum_with_max(256), enum_with_max(511), enum_with_max(65535)]
+    # both sides of the i32 the reflection record keeps enumerator values in, and the 64-bit carrier
+    out += [enum_with_max((1 << 31) - 1)]
+    if beyond_i32:
+        # C03 only: the reflection record cannot carry these (open C12 finding), so the run-time schema of C13 never sees them
+        out += [enum_with_max(1 << 31), enum_with_max((1 << 32) - 1), enum_with_max((1 << 49) - 1), enum_with_max(1 << 63)]
     out += [St(U(3)), St(I(5), F32), shapes.OOO, ("st", (("a", 2, U(8)), ("b", 0, U(8)), ("c", 1, U(8))))]
     return out
 
 
-def build_space(tier):
+def build_space(tier, prop="C03"):
     widths = shapes.W_QUICK if tier == "quick" else shapes.W_THOROUGH
     offsets = (0, 3) if tier == "quick" else (0, 1, 3, 4, 7)
     trees = []
     seen = set()
     transitions = 0
-    for leaves, depth in ((cpp_leaves(widths), 1), (shapes.REP12, 2), ((shapes.REP4 if tier != "quick" else []), 3)):
+    for leaves, depth in ((cpp_leaves(widths, beyond_i32=(prop == "C03")), 1), (shapes.REP12, 2), ((shapes.REP4 if tier != "quick" else []), 3)):
         if not leaves:
             continue
         ts, tr = shapes.type_trees(leaves, depth)
@@ -84,7 +89,7 @@ def coarse(st):
                 walk(f[2])
         elif k == "en":
             m = max(v for _, v in t[1])
-            feats.add("enum>255" if m > 255 else "enum")
+            feats.add("enum>=2^31" if m >= (1 << 31) else "enum>255" if m > 255 else "enum")
         elif k in ("u", "i"):
             feats.add("int")
             if k == "i":
@@ -371,7 +376,7 @@ def run(prop, tier):
     if badv:
         print("HARNESS ERROR: reference codec misses project vectors")
         return 2
-    structs, transitions, bounds = build_space(tier)
+    structs, transitions, bounds = build_space(tier, prop)
     r.bounds = bounds
     work = make_worker(prop, tier)
     for s in pmap(work, chunks(list(enumerate(structs)), BATCH)):
